@@ -161,7 +161,7 @@ def run_case(case, ctx):
         elif route == "api_legacy":
           import atsim.potentials as ap
           pots = routes.pair_potentials_api(model)
-          out = io.StringIO()
+          out = routes.text_sink()
           ap.writePotentials("LAMMPS", tuple(pots) if model.get("api_variant") == "tuple" else pots, int(cutoff) if model.get("api_variant") == "int_cutoff" else cutoff, nr, out)
           text = out.getvalue()
         else:
